@@ -333,7 +333,7 @@ func genStratSpec(rng *rand.Rand, depth int, allowDefault bool) SubSpec {
 	case "strategy.Split":
 		n = 2
 	case "decorator.StopLoss":
-		s.Pct = []float64{0.01, 0.05, 0.2}[rng.Intn(3)]
+		s.Pct = []float64{0.01, 0.05, 0.2, 1, 2}[rng.Intn(5)] // 1 and 2: a stop that can never trigger
 	}
 	for i := 0; i < n; i++ {
 		if depth+1 < maxNest() && rng.Intn(4) == 0 {
